@@ -98,6 +98,12 @@ def chain_case(n):
 HOSTILE.append(chain_case(150))
 HOSTILE.append(chain_case(199))
 HOSTILE.append(chain_case(250))
+# `, ## __VA_ARGS__`: with the variable argument present (even if empty) this is an ordinary paste with a placemarker
+HOSTILE.append((["#define E(fmt, ...) f(fmt, ## __VA_ARGS__)", "#define THIRD(a, b, c, ...) c",
+                 "#define PICK(x, ...) THIRD(x , ## __VA_ARGS__, 7, 9)", "#define LOG(lvl, fmt, ...) p(lvl, fmt , ##__VA_ARGS__)"],
+                "E(1,) E(1,2) E(1,2,3) E(1, ) E(,) PICK(1,) PICK(1,2) LOG(0, \"x\",) LOG(0, \"x\", a, b)"))
+# GNU extension: the comma is dropped when the variable argument is absent altogether
+HOSTILE.append((["#define E(fmt, ...) f(fmt, ## __VA_ARGS__)"], "E(1) E(x) end"))
 
 ARITH = [
     (["#define ADD(a,b) ((a)+(b))", "#define SQ(x) x*x", "#define TWO 2"], ["ADD(1,2)", "SQ(1+2)", "SQ(TWO)", "ADD(SQ(2),TWO)", "ADD(,1)", "SQ((1+2))"]),
@@ -105,6 +111,7 @@ ARITH = [
     (["#define CAT(a,b) a##b", "#define V12 7"], ["CAT(V,12)", "CAT(1,2)", "CAT(V1,2) + CAT(,1)"]),
     (["#define IS(x) defined(x)", "#define Y"], ["IS(Y) + 1", "defined(Y) + defined Y + defined(NOPE)"]),
     (["#define F(x) x", "#define G F"], ["G(3)", "F(G)(4)", "G (5) + G(1)"]),
+    (["#define THIRD(a, b, c, ...) c", "#define PICK(x, ...) THIRD(x , ## __VA_ARGS__, 7, 9)"], ["PICK(1,)", "PICK(1,2)", "PICK(1,2,3)"]),
 ]
 KS = [0, 1, 2, 3, 4, 5, 6, 7, 9, 12, 21, -1]
 
@@ -157,7 +164,8 @@ class Driver:
     def __init__(self):
         from codebasin import platform as cplat
         from codebasin import preprocessor as pp
-        self.pp, self.cplat = pp, cplat
+        from codebasin import config
+        self.pp, self.cplat, self.config = pp, cplat, config
 
     def platform(self, defines, form):
         pp = self.pp
@@ -169,10 +177,15 @@ class Driver:
                 node = pp.DirectiveParser(pp.Lexer(d).tokenize()).parse()
                 node.evaluate_for_platform(platform=plat)
             elif ds is not None:
-                # -D: a later definition of the same name must behave like the #undef/#define sequence of the corpus
-                macro = pp.macro_from_definition_string(ds)
-                plat.undefine(macro.name) if False else None
-                plat.define(macro.name, macro)
+                # -D through the front door: the option goes through the real command-line parser (sometimes preceded
+                # by -U of the same name, which a compiler processes first and which therefore changes nothing, and by
+                # options that are not modelled); what comes out is defined the way finder.find does it
+                name = re.match(r"\w+", ds).group(0)
+                argv = (["-U" + name] if i % 3 == 0 else []) + (["-O2", "-fPIC"] if i % 4 == 1 else []) + ["-D" + ds, "-c", "x.c"]
+                cfgs = [c for c in self.config.ArgumentParser("gcc").parse_args(argv) if c.pass_name == "default"]
+                for dd in cfgs[0].defines:
+                    macro = pp.macro_from_definition_string(dd)
+                    plat.define(macro.name, macro)
             else:
                 node = pp.DirectiveParser(pp.Lexer(d).tokenize()).parse()
                 node.evaluate_for_platform(platform=plat)
